@@ -1,5 +1,10 @@
 import ZixModel.Model.Hash
-/-! # C03 — hash table -/
+import ZixModel.Lemmas.Hash
+/-! # C03 — hash table is a faithful, always-terminating map for any hash function
+
+Property theorems only; helper lemmas live in `ZixModel/Lemmas/Hash.lean`.
+`keyOf : rec → key` is the user's key accessor and `codeOf : key → code` the user's hash
+function: BOTH ARE ARBITRARY FUNCTIONS (constant, colliding, anything). -/
 namespace Zix.C03
 open Zix.Hash Zix.Generated
 
@@ -13,5 +18,405 @@ theorem const_side_conditions :
   have h1 : hashLoadDiv1 = 2 := by decide
   have h2 : hashLoadDiv2 = 8 := by decide
   rw [h1, h2]; omega
+
+/-! ## termination of every probe, in every table (no invariant needed) -/
+
+/-- `find_entry` with fuel = table size never runs out: every slot is visited at most once before
+an empty slot, a match, or the full-cycle guard stops the probe. -/
+theorem hash_probe_terminates (keyOf : Nat → Nat) (slots : List Slot) (key code start : Nat)
+    (hs : start < slots.length) (evs : List Ev) :
+    (findEntry keyOf slots key code start slots.length start evs).isSome := by
+  obtain ⟨res, evs', h, _⟩ := findEntry_spec keyOf slots key code start hs slots.length 0 evs
+    (by omega) (by omega)
+  rw [Nat.add_zero, Nat.mod_eq_of_lt hs] at h
+  rw [h]; rfl
+
+theorem hash_plan_terminates (keyOf : Nat → Nat) (slots : List Slot) (key code start : Nat)
+    (hs : start < slots.length) (evs : List Ev) :
+    (planInsert keyOf slots key code start slots.length start none evs).isSome := by
+  obtain ⟨res, evs', h, _⟩ := planInsert_spec keyOf slots key code start hs slots.length 0 none evs
+    (by omega) (by omega)
+  rw [Nat.add_zero, Nat.mod_eq_of_lt hs] at h
+  rw [h]; rfl
+
+/-! ## the representation invariant -/
+
+/-- The live records of a table, in slot order. -/
+def liveRecs (t : Table) : List Nat := iterate t
+
+/-- Slot `i` holds record `r` under code `c`. -/
+def HoldsAt (t : Table) (i c r : Nat) : Prop := t.slots[i]? = some (.live c r)
+
+/-- No empty slot on the cyclic probe path from `start` up to (excluding) `i`. -/
+def PathNonEmpty (t : Table) (start i : Nat) : Prop :=
+  ∀ d, d < (i + t.n - start) % t.n → t.slots[(start + d) % t.n]? ≠ some .empty
+
+/- CORRECTION (the only one in this file).  The invariant as originally written,
+
+  -- ORIGINAL:
+  -- structure Inv (keyOf codeOf : Nat → Nat) (t : Table) : Prop where
+  --   size4     : 4 ≤ t.n
+  --   countEq   : t.count = (liveRecs t).length
+  --   load      : t.count < t.n
+  --   codes     : ∀ i c r, HoldsAt t i c r → c = codeOf (keyOf r)
+  --   distinct  : ∀ i j c d r s, HoldsAt t i c r → HoldsAt t j d s → keyOf r = keyOf s → i = j
+  --   reachable : ∀ i c r, HoldsAt t i c r → PathNonEmpty t (fold c t.n) i
+
+is not inductive: it does not say that the size is a power of two, so it allows a table of 5 slots
+holding one record; removing that record shrinks the table to `5 / 2 = 2` slots and `size4` is
+lost (`remove_present` as stated is false for the original `Inv`).  The machine-checked
+counterexample is `Counterexample.orig_inv_not_preserved` at the end of this file.  The minimal
+repair is the extra field `pow2` (the C code only ever has power-of-two sizes: it starts at
+`hashMinEntries = 4` and doubles/halves).  `inv_new`, `insert_new` and `remove_present` are proved
+for the strengthened invariant; all other statements are unchanged. -/
+structure Inv (keyOf codeOf : Nat → Nat) (t : Table) : Prop where
+  size4     : 4 ≤ t.n
+  pow2      : ∃ k, t.n = 2 ^ k                    -- ADDED (see the note above)
+  countEq   : t.count = (liveRecs t).length
+  load      : t.count < t.n                       -- at least one non-live slot
+  codes     : ∀ i c r, HoldsAt t i c r → c = codeOf (keyOf r)
+  distinct  : ∀ i j c d r s, HoldsAt t i c r → HoldsAt t j d s → keyOf r = keyOf s → i = j
+  reachable : ∀ i c r, HoldsAt t i c r → PathNonEmpty t (fold c t.n) i
+
+/-! ### bridge to the slot-level invariant `SInv` of `ZixModel/Lemmas/Hash.lean` -/
+
+theorem liveRecs_eq (t : Table) : liveRecs t = liveList t.slots := iterate_eq t
+
+theorem holdsAt_iff {t : Table} {i c r : Nat} : HoldsAt t i c r ↔ t.slots.getD i .empty = .live c r :=
+  getD_live_iff
+
+theorem mem_liveRecs {t : Table} {r : Nat} : r ∈ liveRecs t ↔ ∃ i c, HoldsAt t i c r := by
+  rw [liveRecs_eq, mem_liveList]
+  exact exists_congr fun i => exists_congr fun c => holdsAt_iff.symm
+
+theorem pathNonEmpty_iff {t : Table} {start i : Nat} (hs : start < t.n) :
+    PathNonEmpty t start i ↔
+      ∀ d, d < (i + t.n - start) % t.n → t.slots.getD ((start + d) % t.n) .empty ≠ .empty := by
+  unfold PathNonEmpty
+  refine forall_congr' fun d => forall_congr' fun _ => ?_
+  rw [getElem?_of_getD (l := t.slots) (i := (start + d) % t.n) (idx_lt hs)]
+  simp
+
+theorem Inv.sinv {keyOf codeOf : Nat → Nat} {t : Table} (h : Inv keyOf codeOf t) :
+    SInv keyOf codeOf t.slots := by
+  have hn : 0 < t.n := by have := h.size4; omega
+  refine ⟨fun i c r hi => h.codes i c r (holdsAt_iff.2 hi),
+    fun i j c d r s hi hj => h.distinct i j c d r s (holdsAt_iff.2 hi) (holdsAt_iff.2 hj), ?_⟩
+  intro i c r hi
+  exact (pathNonEmpty_iff (fold_lt hn)).1 (h.reachable i c r (holdsAt_iff.2 hi))
+
+theorem Inv.of_sinv {keyOf codeOf : Nat → Nat} {t : Table} (h4 : 4 ≤ t.n) (hp : ∃ k, t.n = 2 ^ k)
+    (hc : t.count = (liveList t.slots).length) (hl : t.count < t.n) (h : SInv keyOf codeOf t.slots) :
+    Inv keyOf codeOf t := by
+  refine ⟨h4, hp, by rw [liveRecs_eq]; exact hc, hl,
+    fun i c r hi => h.codes i c r (holdsAt_iff.1 hi),
+    fun i j c d r s hi hj => h.distinct i j c d r s (holdsAt_iff.1 hi) (holdsAt_iff.1 hj), ?_⟩
+  intro i c r hi
+  exact (pathNonEmpty_iff (fold_lt (by omega))).2 (h.reach i c r (holdsAt_iff.1 hi))
+
+theorem inv_new (keyOf codeOf : Nat → Nat) : Inv keyOf codeOf new := by
+  have hn : new.n = 4 := by decide
+  refine Inv.of_sinv (by omega) ⟨2, by decide⟩ ?_ (by rw [hn]; decide) (SInv.replicate _ _ _)
+  show 0 = (liveList (List.replicate hashMinEntries Slot.empty)).length
+  rw [liveList_replicate_empty]; rfl
+
+/-! ## find is exact -/
+
+/-- `zix_hash_find` returns the slot of the live record with that key if there is one … -/
+theorem find_some_iff (keyOf codeOf : Nat → Nat) (t : Table) (h : Inv keyOf codeOf t) (key i : Nat) :
+    (find keyOf t key (codeOf key)).1 = some i ↔ ∃ r, HoldsAt t i (codeOf key) r ∧ keyOf r = key := by
+  have hn : 0 < t.n := by have := h.size4; omega
+  have hs : fold (codeOf key) t.n < t.slots.length := fold_lt hn
+  rw [find_fst]
+  constructor
+  · rintro ⟨evs', hfe, hl⟩
+    obtain ⟨res, evs2, hfe2, hres⟩ := findEntry_spec keyOf t.slots key (codeOf key) _ hs t.n 0
+      [Ev.hash key] hn (Nat.le_refl _)
+    rw [Nat.add_zero, Nat.mod_eq_of_lt hs] at hfe2
+    rw [hfe] at hfe2
+    cases hfe2
+    obtain ⟨r, hr, hk⟩ := hres.match_of_live hl
+    exact ⟨r, holdsAt_iff.2 hr, hk⟩
+  · rintro ⟨r, hr, hk⟩
+    obtain ⟨evs', hfe⟩ := h.sinv.findEntry_found (holdsAt_iff.1 hr) hk [Ev.hash key]
+    exact ⟨evs', hfe, _, _, holdsAt_iff.1 hr⟩
+
+/-- … and the end iterator exactly when no live record has that key. -/
+theorem find_none_iff (keyOf codeOf : Nat → Nat) (t : Table) (h : Inv keyOf codeOf t) (key : Nat) :
+    (find keyOf t key (codeOf key)).1 = none ↔ ∀ r ∈ liveRecs t, keyOf r ≠ key := by
+  constructor
+  · intro hnone r hr hk
+    obtain ⟨i, c, hi⟩ := mem_liveRecs.1 hr
+    have hc : c = codeOf key := by rw [h.codes i c r hi, hk]
+    subst hc
+    have := (find_some_iff keyOf codeOf t h key i).2 ⟨r, hi, hk⟩
+    rw [hnone] at this; cases this
+  · intro habs
+    cases hf : (find keyOf t key (codeOf key)).1 with
+    | none => rfl
+    | some i =>
+      obtain ⟨r, hr, hk⟩ := (find_some_iff keyOf codeOf t h key i).1 hf
+      exact absurd hk (habs r (mem_liveRecs.2 ⟨i, _, hr⟩))
+
+/-! ## insert -/
+
+/-- A duplicate key is refused with EXISTS and nothing changes. -/
+theorem insert_exists (keyOf codeOf : Nat → Nat) (t : Table) (h : Inv keyOf codeOf t) (rec : Nat) (ok : Bool)
+    (hdup : ∃ r ∈ liveRecs t, keyOf r = keyOf rec) :
+    (insert keyOf t rec (codeOf (keyOf rec)) ok).1 = t ∧
+    (insert keyOf t rec (codeOf (keyOf rec)) ok).2.1 = .exists_ := by
+  obtain ⟨r, hr, hk⟩ := hdup
+  obtain ⟨i, c, hi⟩ := mem_liveRecs.1 hr
+  have hc : c = codeOf (keyOf rec) := by rw [h.codes i c r hi, hk]
+  subst hc
+  obtain ⟨evs', hpl⟩ := h.sinv.planInsert_found (holdsAt_iff.1 hi) hk [Ev.key rec, Ev.hash (keyOf rec)]
+  have hpl' : planInsert keyOf t.slots (keyOf rec) (codeOf (keyOf rec)) (fold (codeOf (keyOf rec)) t.n) t.n
+      (fold (codeOf (keyOf rec)) t.n) none [Ev.key rec, Ev.hash (keyOf rec)] = some (i, evs') := hpl
+  simp only [Zix.Hash.insert, hpl', insertAt, holdsAt_iff.1 hi, and_self]
+
+/-- A new key is inserted (SUCCESS), or — only if a larger table was needed and could not be
+allocated — refused with NO_MEM leaving the table exactly as it was.  The invariant is kept and the
+set of live records is the old one plus the new record. -/
+theorem insert_new (keyOf codeOf : Nat → Nat) (t : Table) (h : Inv keyOf codeOf t) (rec : Nat) (ok : Bool)
+    (hnew : ∀ r ∈ liveRecs t, keyOf r ≠ keyOf rec) :
+    let res := insert keyOf t rec (codeOf (keyOf rec)) ok
+    (res.2.1 = .success ∧ Inv keyOf codeOf res.1 ∧
+      (∀ r, r ∈ liveRecs res.1 ↔ r ∈ liveRecs t ∨ r = rec) ∧ res.1.count = t.count + 1) ∨
+    (ok = false ∧ res.2.1 = .noMem ∧ res.1 = t) := by
+  intro res
+  have hn : 0 < t.slots.length := by have := h.size4; unfold Table.n at this; omega
+  have hsinv := h.sinv
+  have hcnt : t.count = (liveList t.slots).length := by rw [← liveRecs_eq]; exact h.countEq
+  have hload : (liveList t.slots).length < t.slots.length := by rw [← hcnt]; exact h.load
+  have hnew' : ∀ j c' r', t.slots.getD j .empty = .live c' r' → keyOf r' ≠ keyOf rec :=
+    fun j c' r' hj => hnew r' (mem_liveRecs.2 ⟨j, c', holdsAt_iff.2 hj⟩)
+  have hnomatch : ∀ j, ¬ Match keyOf (keyOf rec) (codeOf (keyOf rec)) (t.slots.getD j .empty) := by
+    rintro j ⟨r, hj, hk⟩
+    exact hnew' j _ r hj hk
+  obtain ⟨i, evs', hpl, hi, hnl, hpath⟩ := planInsert_new keyOf t.slots (keyOf rec) (codeOf (keyOf rec))
+    hn hnomatch hload [Ev.key rec, Ev.hash (keyOf rec)]
+  have hpl' : planInsert keyOf t.slots (keyOf rec) (codeOf (keyOf rec)) (fold (codeOf (keyOf rec)) t.n) t.n
+      (fold (codeOf (keyOf rec)) t.n) none [Ev.key rec, Ev.hash (keyOf rec)] = some (i, evs') := hpl
+  have hres : res = insertAt keyOf t i (codeOf (keyOf rec)) rec ok evs' := by
+    simp only [res, Zix.Hash.insert, hpl']
+  clear_value res
+  subst hres
+  rw [insertAt_not_live _ _ _ _ _ _ _ hnl]
+  -- the table with the new record stored, before any growth
+  have hs1 : SInv keyOf codeOf (t.slots.set i (.live (codeOf (keyOf rec)) rec)) :=
+    hsinv.set_live rfl hnew' hpath
+  have hc1 : (liveList (t.slots.set i (.live (codeOf (keyOf rec)) rec))).length = t.count + 1 := by
+    rw [liveList_length_set_live hi hnl, hcnt]
+  have hm1 : ∀ r, SlotHas (t.slots.set i (.live (codeOf (keyOf rec)) rec)) r ↔ r ∈ liveRecs t ∨ r = rec := by
+    intro r; rw [slotHas_set_live hi hnl, liveRecs_eq, mem_liveList]
+  have hl1 : hashLoadDiv1 = 2 := by decide
+  have hl2 : hashLoadDiv2 = 8 := by decide
+  have h4 := h.size4
+  have hld := h.load
+  obtain ⟨k, hk⟩ := h.pow2
+  by_cases hg : t.count + 1 ≥ t.n / hashLoadDiv1 + t.n / hashLoadDiv2
+  · rw [if_pos hg]
+    cases ok with
+    | false => right; exact ⟨rfl, rfl, rfl⟩
+    | true =>
+      left
+      rw [if_pos rfl]
+      obtain ⟨r1, r2, r3, r4⟩ := rehash_spec keyOf codeOf _ (t.n * 2) evs' hs1 (by rw [hc1]; omega)
+      refine ⟨rfl, ?_, ?_, rfl⟩
+      · refine Inv.of_sinv ?_ ⟨k + 1, ?_⟩ ?_ ?_ r2
+        · show 4 ≤ List.length _; rw [r1]; omega
+        · show List.length _ = _; rw [r1, hk, Nat.pow_succ]
+        · show t.count + 1 = _; rw [r3, hc1]
+        · show t.count + 1 < List.length _; rw [r1]; omega
+      · intro r
+        rw [liveRecs_eq, mem_liveList]
+        show SlotHas (rehashInto keyOf _ _ evs').1 r ↔ _
+        rw [r4, hm1]
+  · rw [if_neg hg]
+    left
+    refine ⟨rfl, ?_, ?_, rfl⟩
+    · refine Inv.of_sinv ?_ ⟨k, ?_⟩ ?_ ?_ hs1
+      · show 4 ≤ List.length _; rw [List.length_set]; exact h4
+      · show List.length _ = _; rw [List.length_set]; exact hk
+      · exact hc1.symm
+      · show t.count + 1 < List.length _
+        rw [List.length_set]
+        rw [hl1, hl2] at hg
+        unfold Table.n at hg h4; omega
+    · intro r
+      rw [liveRecs_eq, mem_liveList]
+      exact hm1 r
+
+/-! ## remove -/
+
+theorem remove_absent (keyOf codeOf : Nat → Nat) (t : Table) (h : Inv keyOf codeOf t) (key : Nat) (ok : Bool)
+    (habs : ∀ r ∈ liveRecs t, keyOf r ≠ key) :
+    (remove keyOf t key (codeOf key) ok).1 = t ∧ (remove keyOf t key (codeOf key) ok).2.1 = .notFound ∧
+    (remove keyOf t key (codeOf key) ok).2.2.1 = none := by
+  have hnone := (find_none_iff keyOf codeOf t h key).2 habs
+  unfold remove
+  generalize find keyOf t key (codeOf key) = p at hnone
+  obtain ⟨o, evs⟩ := p
+  simp only at hnone
+  subst hnone
+  exact ⟨rfl, rfl, rfl⟩
+
+/-- Removing a present key hands back exactly that record, keeps the invariant, and leaves all
+other records in place (whether or not the table could be shrunk). -/
+theorem remove_present (keyOf codeOf : Nat → Nat) (t : Table) (h : Inv keyOf codeOf t) (key r0 : Nat) (ok : Bool)
+    (hr : r0 ∈ liveRecs t) (hk : keyOf r0 = key) :
+    let res := remove keyOf t key (codeOf key) ok
+    res.2.2.1 = some r0 ∧ Inv keyOf codeOf res.1 ∧
+    (∀ r, r ∈ liveRecs res.1 ↔ r ∈ liveRecs t ∧ r ≠ r0) ∧ res.1.count + 1 = t.count ∧
+    (res.2.1 = .success ∨ (ok = false ∧ res.2.1 = .noMem)) := by
+  intro res
+  have hsinv := h.sinv
+  have hcnt : t.count = (liveList t.slots).length := by rw [← liveRecs_eq]; exact h.countEq
+  obtain ⟨i, c, hi⟩ := mem_liveRecs.1 hr
+  have hc : c = codeOf key := by rw [h.codes i c r0 hi, hk]
+  subst hc
+  have hi' := holdsAt_iff.1 hi
+  have hfind := (find_some_iff keyOf codeOf t h key i).2 ⟨r0, hi, hk⟩
+  obtain ⟨e1, e2, e3⟩ := remove_of_find_some keyOf t key (codeOf key) i ok hfind
+  have hrec : recordAt t i = some r0 := by unfold recordAt; rw [hi']
+  have hs1 : SInv keyOf codeOf (t.slots.set i .tomb) := hsinv.set_tomb i
+  have hc1 : (liveList (t.slots.set i .tomb)).length + 1 = t.count := by
+    rw [liveList_length_set_tomb hi', hcnt]
+  have hm1 : ∀ r, SlotHas (t.slots.set i .tomb) r ↔ r ∈ liveRecs t ∧ r ≠ r0 := by
+    intro r; rw [slotHas_set_tomb hsinv hi', liveRecs_eq, mem_liveList]
+  have hsd : hashShrinkDiv = 4 := by decide
+  have hme : hashMinEntries = 4 := by decide
+  have h4 := h.size4
+  have hld := h.load
+  have hp := h.pow2
+  show (remove keyOf t key (codeOf key) ok).2.2.1 = some r0 ∧
+    Inv keyOf codeOf (remove keyOf t key (codeOf key) ok).1 ∧
+    (∀ r, r ∈ liveRecs (remove keyOf t key (codeOf key) ok).1 ↔ r ∈ liveRecs t ∧ r ≠ r0) ∧
+    (remove keyOf t key (codeOf key) ok).1.count + 1 = t.count ∧
+    ((remove keyOf t key (codeOf key) ok).2.1 = .success ∨
+      (ok = false ∧ (remove keyOf t key (codeOf key) ok).2.1 = .noMem))
+  rw [e1, e2, e3, erase_eq]
+  -- the tombstoned table without shrinking
+  have hinv1 : Inv keyOf codeOf { slots := t.slots.set i .tomb, count := t.count - 1 } := by
+    obtain ⟨k, hk⟩ := hp
+    refine Inv.of_sinv ?_ ⟨k, ?_⟩ ?_ ?_ hs1
+    · show 4 ≤ List.length _; rw [List.length_set]; exact h4
+    · show List.length _ = _; rw [List.length_set]; exact hk
+    · show t.count - 1 = (liveList (t.slots.set i .tomb)).length; omega
+    · show t.count - 1 < List.length _; rw [List.length_set]; unfold Table.n at hld; omega
+  have hmem1 : ∀ r, r ∈ liveRecs { slots := t.slots.set i .tomb, count := t.count - 1 } ↔
+      r ∈ liveRecs t ∧ r ≠ r0 := by
+    intro r; rw [liveRecs_eq, mem_liveList]; exact hm1 r
+  by_cases hg : t.count - 1 < t.n / hashShrinkDiv ∧ t.n > hashMinEntries
+  · rw [if_pos hg]
+    cases ok with
+    | false =>
+      rw [if_neg (by simp)]
+      exact ⟨hrec, hinv1, hmem1, by show t.count - 1 + 1 = t.count; omega, Or.inr ⟨rfl, rfl⟩⟩
+    | true =>
+      rw [if_pos rfl]
+      rw [hsd, hme] at hg
+      obtain ⟨p1, k, p2⟩ := pow2_half hp hg.2
+      obtain ⟨r1, r2, r3, r4⟩ := rehash_spec keyOf codeOf _ (t.n / 2) [] hs1 (by omega)
+      refine ⟨hrec, ?_, ?_, by show t.count - 1 + 1 = t.count; omega, Or.inl rfl⟩
+      · refine Inv.of_sinv ?_ ⟨k, ?_⟩ ?_ ?_ r2
+        · show 4 ≤ List.length _; rw [r1]; exact p1
+        · show List.length _ = _; rw [r1]; exact p2
+        · show t.count - 1 = _; rw [r3]; omega
+        · show t.count - 1 < List.length _; rw [r1]; omega
+      · intro r
+        rw [liveRecs_eq, mem_liveList]
+        show SlotHas (rehashInto keyOf _ _ []).1 r ↔ _
+        rw [r4, hm1]
+  · rw [if_neg hg]
+    exact ⟨hrec, hinv1, hmem1, by show t.count - 1 + 1 = t.count; omega, Or.inl rfl⟩
+
+/-! ## size and iteration -/
+
+/-- `zix_hash_size` is the number of live records and begin..end visits each exactly once. -/
+theorem size_and_iteration (keyOf codeOf : Nat → Nat) (t : Table) (h : Inv keyOf codeOf t)
+    (hinj : ∀ i j c d r, HoldsAt t i c r → HoldsAt t j d r → i = j) :
+    t.count = (iterate t).length ∧ (iterate t).Nodup := by
+  refine ⟨h.countEq, ?_⟩
+  rw [iterate_eq]
+  exact nodup_liveList fun i j c d r hi hj => hinj i j c d r (holdsAt_iff.2 hi) (holdsAt_iff.2 hj)
+
+/-! ## callbacks only see user data in the documented roles -/
+
+/-- Every callback event of `find` is `hash key`, `key r` for a stored record `r`, or
+`eq (keyOf r) key` for a stored record `r` (stored key first, probe key second). -/
+theorem find_callbacks (keyOf : Nat → Nat) (t : Table) (key code : Nat) :
+    ∀ e ∈ (find keyOf t key code).2,
+      e = .hash key ∨ (∃ r ∈ liveRecs t, e = .key r) ∨ (∃ r ∈ liveRecs t, e = .eq (keyOf r) key) := by
+  apply find_events
+  · exact Or.inl rfl
+  · intro i c r hi
+    have hr : r ∈ liveRecs t := mem_liveRecs.2 ⟨i, c, holdsAt_iff.2 hi⟩
+    exact ⟨Or.inr (Or.inl ⟨r, hr, rfl⟩), Or.inr (Or.inr ⟨r, hr, rfl⟩)⟩
+
+theorem insert_callbacks (keyOf : Nat → Nat) (t : Table) (rec code : Nat) (ok : Bool) :
+    ∀ e ∈ (insert keyOf t rec code ok).2.2,
+      e = .hash (keyOf rec) ∨ (∃ r, (r ∈ liveRecs t ∨ r = rec) ∧ e = .key r) ∨
+      (∃ r s, (r ∈ liveRecs t ∨ r = rec) ∧ (s ∈ liveRecs t ∨ s = rec) ∧ e = .eq (keyOf r) (keyOf s)) := by
+  apply insert_events keyOf t rec code ok
+    (fun e => e = .hash (keyOf rec) ∨ (∃ r, (r ∈ liveRecs t ∨ r = rec) ∧ e = .key r) ∨
+      (∃ r s, (r ∈ liveRecs t ∨ r = rec) ∧ (s ∈ liveRecs t ∨ s = rec) ∧ e = .eq (keyOf r) (keyOf s)))
+    (fun r => r ∈ liveRecs t ∨ r = rec)
+  · exact Or.inl rfl
+  · intro r hr; exact Or.inr (Or.inl ⟨r, hr, rfl⟩)
+  · intro r s hr hs; exact Or.inr (Or.inr ⟨r, s, hr, hs, rfl⟩)
+  · intro r hr; left; rw [liveRecs_eq]; exact mem_liveList.2 hr
+  · exact Or.inr rfl
+
+/-! ## non-vacuity: a constant hash function; a table whose every non-live slot is a tombstone -/
+example : (find (fun r => r) ⟨[.live 7 1, .tomb, .live 7 2, .tomb], 2⟩ 9 7).1 = none := by decide
+example : (insert (fun r => r) (insert (fun r => r) new 1 7 true).1 2 7 true).2.1 = .success := by decide
+
+/-! ## counterexample to the inductiveness of the ORIGINAL invariant (without `pow2`) -/
+namespace Counterexample
+
+/-- The invariant exactly as originally stated (no `pow2` field). -/
+structure InvOrig (keyOf codeOf : Nat → Nat) (t : Table) : Prop where
+  size4     : 4 ≤ t.n
+  countEq   : t.count = (liveRecs t).length
+  load      : t.count < t.n
+  codes     : ∀ i c r, HoldsAt t i c r → c = codeOf (keyOf r)
+  distinct  : ∀ i j c d r s, HoldsAt t i c r → HoldsAt t j d s → keyOf r = keyOf s → i = j
+  reachable : ∀ i c r, HoldsAt t i c r → PathNonEmpty t (fold c t.n) i
+
+/-- five slots, record 1 (key 1, code 0) in its home slot -/
+def t5 : Table := ⟨[.live 0 1, .empty, .empty, .empty, .empty], 1⟩
+
+theorem t5_holds {i c r : Nat} (h : HoldsAt t5 i c r) : i = 0 ∧ c = 0 ∧ r = 1 := by
+  unfold HoldsAt t5 at h
+  match i, h with
+  | 0, h => simp at h; omega
+  | 1, h => simp at h
+  | 2, h => simp at h
+  | 3, h => simp at h
+  | 4, h => simp at h
+  | i + 5, h => simp at h
+
+theorem t5_inv : InvOrig (fun r => r) (fun _ => 0) t5 := by
+  refine ⟨by decide, by decide, by decide, ?_, ?_, ?_⟩
+  · intro i c r h; exact (t5_holds h).2.1
+  · intro i j c d r s hi hj _; rw [(t5_holds hi).1, (t5_holds hj).1]
+  · intro i c r h
+    obtain ⟨rfl, rfl, rfl⟩ := t5_holds h
+    intro d hd
+    have h0 : (0 + t5.n - fold 0 t5.n) % t5.n = 0 := by decide
+    rw [h0] at hd
+    exact absurd hd (Nat.not_lt_zero d)
+
+/-- `remove_present` fails for the original invariant: the table shrinks to 2 slots. -/
+theorem orig_inv_not_preserved :
+    InvOrig (fun r => r) (fun _ => 0) t5 ∧ 1 ∈ liveRecs t5 ∧
+    (remove (fun r => r) t5 1 0 true).1.n = 2 ∧
+    ¬ InvOrig (fun r => r) (fun _ => 0) (remove (fun r => r) t5 1 0 true).1 := by
+  refine ⟨t5_inv, by decide, by decide, ?_⟩
+  intro h
+  exact absurd h.size4 (by decide)
+
+end Counterexample
 
 end Zix.C03
